@@ -184,6 +184,9 @@ class Runner:
             self.incomplete.append(dict(entry=ent.label(), why=r[1]))
             self.log("[engine] INCOMPLETE %s: %s" % (ent.label(), r[1][:600]))
         obs = self.dedupe(eng.obligations, ent)
+        for cid, _, pid in eng.simplified[:2]:
+            self.results.append(dict(entry=ent.label(), id=cid, kind="check", path=pid, status="discharged",
+                                     solver="z3-simplifier", secs=0.0, sample_only=True))
         for k, v in eng.stats.items():
             if isinstance(v, (int, float)):
                 self.engine_stats[k] = self.engine_stats.get(k, 0) + v
@@ -248,7 +251,7 @@ class Runner:
         asserts = rel + [neg]
         txt = solve.to_smt2(asserts, logic)
         txt5 = txt if logic else "(set-logic ALL)\n" + txt
-        if "bv2int" in txt5 or "int2bv" in txt5 or "root-obj" in txt5:
+        if "bv2int" in txt5 or "int2bv" in txt5 or "root-obj" in txt5 or "int_to_bv" in txt5 or "bv_to_int" in txt5:
             txt5 = None
         return dict(tag=o["id"].replace(":", "_").replace("/", "_")[:40], txt=txt, txt_cvc5=txt5,
                     asserts=asserts, flags=flags, logic=logic)
@@ -520,7 +523,8 @@ class Runner:
 
     def write_evidence(self, st):
         chk = self.chk
-        nsimp = int(self.engine_stats.get("simplified_true", 0))
+        nsample = sum(1 for r in self.results if r.get("sample_only"))
+        nsimp = int(self.engine_stats.get("simplified_true", 0)) - nsample
         total = sum(1 for r in self.results if r["kind"] != "witness") + nsimp
         st = dict(st)
         st["discharged"] = st.get("discharged", 0) + nsimp
@@ -573,7 +577,7 @@ class Runner:
                 reachability_witnesses=self.witness,
                 incomplete=self.incomplete[:20],
                 concrete_true_checks=int(self.engine_stats.get("concrete_true", 0)),
-                discharged_by_z3_simplifier=nsimp,
+                discharged_by_z3_simplifier=nsimp + nsample,
                 outside_claim=getattr(chk, "OUTSIDE", []),
                 explanation=getattr(chk, "CLAIM", ""),
             ),
